@@ -123,7 +123,26 @@ func vfHamTree(sys *System) (registered, unreachable, unlisted []string) {
 func vfHamFutureStorm(R *verifrt.Report, ci int, sys *System, r vivid.ActorRef, rng *verifrt.Rand) {
 	op := []string{"reply", "reply", "reply2", "noop"}[rng.Intn(4)]
 	to := []time.Duration{20 * time.Microsecond, 100 * time.Microsecond, 500 * time.Microsecond, 5 * time.Millisecond, 50 * time.Millisecond}[rng.Intn(5)]
-	f := sys.Ask(r, &vfHamMsg{Op: op}, to)
+	var f vivid.Future[vivid.Message]
+	if rng.Intn(4) == 0 {
+		// a future completed by a task goroutine (Entrust) instead of a reply: value, error or panic, after a short spin
+		mode, spin := rng.Intn(3), rng.Intn(2000)
+		op = fmt.Sprintf("entrust/%d", mode)
+		f = sys.Entrust(to, vivid.EntrustTaskFN(func() (vivid.Message, error) {
+			for i := 0; i < spin; i++ {
+				runtime.Gosched()
+			}
+			switch mode {
+			case 0:
+				return &vfHamMsg{Op: "noop"}, nil
+			case 1:
+				return nil, fmt.Errorf("vf-task-error")
+			}
+			panic("vf-task-panic")
+		}))
+	} else {
+		f = sys.Ask(r, &vfHamMsg{Op: op}, to)
+	}
 	k := 3 + rng.Intn(6)
 	type obs struct {
 		msg vivid.Message
